@@ -56,10 +56,10 @@ func c28(c *vc.Ctx) {
 	parAlpha := []string{"", "-", "+", "--", "-e", "+e", "-o", "+o", "errexit", "nosuch", "-eu", "-z", "a", "-x"}
 
 	c.Rule = "(1) " + space.describe() + fmt.Sprintf(" + the string literals of interp/interp_test.go; each distinct syntax tree (dump without positions; layout deviations and variants that give the same tree are run once) is run by a fresh Runner under %d variable environments (x,y,a unset / strings + positional parameters / indexed arrays / associative arrays); ", c28NumModes) +
-		fmt.Sprintf("(2) each of the %d builtins (string literals of interp.IsBuiltin in the working tree + declaration keywords) with ALL argument vectors of length <=%d (one less for the builtins that only print 'unsupported builtin') over the common alphabet %q plus per-builtin symbols (c28_builtins.go), in 3 setups (top level without parameters; after `set -- p -ab q` with variables; inside a for loop inside a function), declaration keywords both with unquoted and quoted arguments, standard input is a short regular file (read, mapfile, readarray also with a strings.Reader, an empty reader and no stdin), also behind `builtin`/`command` with <=%d arguments; `test` and `[ ... ]` additionally with ALL operand vectors of length <=%d over %q; ALL ordered pairs of the %d calls of the stateful-builtin menu (getopts, shift, set, OPTIND, pushd/popd/cd, trap, read, mapfile, declare/local, unset, wait, return/break/continue, functions, alias, source/eval) in the setups %v", len(names), argLen, c28Common, argLen-1, testLen, c28TestAlpha, len(menu), pairSetups) +
+		fmt.Sprintf("(2) each of the %d builtins (string literals of interp.IsBuiltin in the working tree + declaration keywords) with ALL argument vectors of length <=%d (one less for the builtins that only print 'unsupported builtin') over the common alphabet %q plus per-builtin symbols (c28_builtins.go), in 3 setups (top level without parameters; after `set -- p -ab q` with variables; inside a for loop inside a function; vectors of length 3 only in the second), declaration keywords both with unquoted and quoted arguments, standard input is a short regular file (read, mapfile, readarray also with a strings.Reader, an empty reader and no stdin), also behind `builtin`/`command` with <=%d arguments; `test` and `[ ... ]` additionally with ALL operand vectors of length <=%d over %q; ALL ordered pairs of the %d calls of the stateful-builtin menu (getopts, shift, set, OPTIND, pushd/popd/cd, trap, read, mapfile, declare/local, unset, wait, return/break/continue, functions, alias, source/eval) in the setups %v", len(names), argLen, c28Common, argLen-1, testLen, c28TestAlpha, len(menu), pairSetups) +
 		func() string {
 			if triples {
-				return fmt.Sprintf(", and ALL ordered triples of the %d core calls", len(core))
+				return fmt.Sprintf(", and ALL ordered triples of the %d core calls (in the function/loop setup)", len(core))
 			}
 			return ""
 		}() +
@@ -128,12 +128,15 @@ func c28(c *vc.Ctx) {
 				stdins = []int{3, 0, 1, 2}
 			}
 			seen := map[string]bool{}
-			one := func(body string, stdin int) {
+			one := func(body string, stdin int, nargs int) {
 				if seen[body] && stdin == 3 {
 					return
 				}
 				seen[body] = true
 				for setup := 0; setup < 3; setup++ {
+					if nargs > 2 && setup != 1 {
+						continue // the longest vectors (thorough tier) only after `set -- ...`
+					}
 					emit(c28Case{Part: "blt", Src: c28Wrap(setup, body), Stdin: stdin, WallMS: wallMS, Steps: steps})
 				}
 			}
@@ -145,11 +148,11 @@ func c28(c *vc.Ctx) {
 				for _, m := range modes {
 					body := c28Call(name, v, m)
 					for _, si := range stdins {
-						one(body, si)
+						one(body, si, len(v))
 					}
 					if len(v) <= argLen-1 && name != "builtin" && name != "command" {
-						one("builtin "+body, 3)
-						one("command "+body, 3)
+						one("builtin "+body, 3, len(v))
+						one("command "+body, 3, len(v))
 					}
 				}
 			})
@@ -174,7 +177,7 @@ func c28(c *vc.Ctx) {
 			for _, x := range core {
 				for _, y := range core {
 					for _, z := range core {
-						for setup := 0; setup < 3; setup++ {
+						for _, setup := range []int{2} {
 							emit(c28Case{Part: "pair", Src: c28Wrap(setup, x.Code+"\n"+y.Code+"\n"+z.Code), Stdin: 3, WallMS: wallMS, Steps: steps})
 						}
 					}
@@ -216,6 +219,16 @@ func c28(c *vc.Ctx) {
 		}
 	}
 
+	if os.Getenv("VERIF_C28_COUNT") != "" {
+		// development aid: size of the space per part, nothing is run
+		n := map[string]int{}
+		gen(func(t c28Case) { n[t.Part]++ })
+		for _, k := range c28SortedKeys(n) {
+			fmt.Printf("%s: %d\n", k, n[k])
+		}
+		c28ThePool.shutdown()
+		os.Exit(2)
+	}
 	run := func(t c28Case) *vc.Fail {
 		rep := c28ThePool.exec(t)
 		return c28Judge(c, t, rep)
